@@ -55,6 +55,21 @@ class PathV:
         return 'Path(%s→%s)' % (self.text, self.node)
 
 
+class CanonPathV(PathV):
+    """what std::fs::canonicalize returns for node `node`: an absolute path of `depth` components"""
+    __slots__ = ('depth',)
+
+    def __init__(self, node, depth, text=None):
+        PathV.__init__(self, node, text if text is not None else '<canonical path of n%s>' % node)
+        self.depth = depth
+
+    def clone_model(self, ctx):
+        return CanonPathV(self.node, self.depth, self.text)
+
+    def as_str(self, ctx):
+        return CanonStr(self.node, self.depth)
+
+
 class CanonStr(Str):
     """canonical absolute path text of a node: only its number of '/' (the depth) is observable"""
     __slots__ = ('depth', 'node')
@@ -181,6 +196,19 @@ class FS:
                 anc[i][d] = Or(terms)
         return anc
 
+    def nonutf8_bit(self, node):
+        """solver Boolean: the path of `node` is not valid UTF-8 (one of its components has a non-UTF-8 name). Created
+        on first use, i.e. only when the code under test asks (Path::to_str / OsStr::to_str / into_string)"""
+        if not hasattr(self, 'nonutf8'):
+            ctx = self.ctx
+            self.nonutf8 = [ctx.fresh_bool('nonutf8_%d' % i) for i in range(self.M)]
+            for r in range(self.nroots):
+                ctx.assume(Not(self.nonutf8[r]))      # roots come from the command line: valid UTF-8 (the cwd above them too)
+            for i in range(self.nroots, self.M):
+                for c in range(i):
+                    ctx.assume(z3.Implies(And(self.parent[i] == BitVecVal(c, 8), self.nonutf8[c]), self.nonutf8[i]))
+        return self.nonutf8[node]
+
     def match_bit(self, node, member=None):
         key = (node, member)
         if key not in self.matches:
@@ -215,7 +243,7 @@ def as_path(ctx, v):
     if isinstance(v, CanonStr):
         fs = fs_of(ctx)
         canon = getattr(fs, 'canon', None)
-        return PathV(v.node, canon[v.node] if canon and v.node in canon else '<canonical path of n%s>' % v.node)
+        return CanonPathV(v.node, v.depth, canon[v.node] if canon and v.node in canon else '<canonical path of n%s>' % v.node)
     if isinstance(v, Str) and v.s is not None:
         return path_from_text(ctx, v.s)
     raise Unmodelled('expected path, got %r' % (type(v).__name__,))
@@ -246,15 +274,29 @@ def models():
     @reg(r'^(std::path::)?Path::to_path_buf$|^<PathBuf as Clone>::clone$|^<PathBuf as From<.*>>::from$|^(std::path::)?PathBuf::from$')
     def path_clone(ctx, args, callee):
         p = as_path(ctx, args[0])
-        return PathV(p.node, p.text, p.via_link)
+        return p.clone_model(ctx)
 
     @reg(r'^<PathBuf as Deref>::deref$|^<PathBuf as AsRef<.*>>::as_ref$|^(std::path::)?PathBuf::as_path$|^<(std::path::)?Path as AsRef<.*>>::as_ref$|^<&PathBuf as AsRef<.*>>::as_ref$')
     def path_deref(ctx, args, callee):
         return args[0] if isinstance(args[0], Ref) else Ref(Cell(args[0]))
 
+    @reg(r'^(std::path::)?Path::to_str$|^(std::ffi::)?OsStr::to_str$')
+    def path_to_str(ctx, args, callee):
+        p = ctx.deref(args[0])
+        node = getattr(p, 'node', None)
+        if node is not None and ctx.decide(fs_of(ctx).nonutf8_bit(node)):
+            return none()
+        if isinstance(p, CanonPathV):
+            return some(CanonStr(p.node, p.depth))
+        if isinstance(p, PathV):
+            return some(Str(p.text))
+        return some(as_str(ctx, p))
+
     @reg(r'^(std::path::)?Path::to_string_lossy$|^OsStr::to_string_lossy$')
     def path_lossy(ctx, args, callee):
         p = ctx.deref(args[0])
+        if isinstance(p, CanonPathV):
+            return EnumV(0, {0: [CanonStr(p.node, p.depth)]}, 'Cow')
         if isinstance(p, PathV):
             return EnumV(0, {0: [Str(p.text)]}, 'Cow')
         return EnumV(0, {0: [as_str(ctx, p)]}, 'Cow')
@@ -263,19 +305,19 @@ def models():
     def current_dir(ctx, args, callee):
         return ok(PathV(None, '<cwd>'))
 
-    @reg(r'(^|::)canonical_path$')
+    @reg(r'^(std::fs::)?canonicalize$', 'fs:canonicalize')
     def canonical_path(ctx, args, callee):
         fs = fs_of(ctx)
         p = as_path(ctx, args[0])
         if p.node is None:
-            return err(Str('No such file or directory'))
+            return err(IoError('No such file or directory'))
         n = p.node
         cf = ctx.ghost.get('canon_fault')
         if cf is not None and cf.get(n) is not None and ctx.decide(cf[n]):
             ctx.ghost.setdefault('faulted', []).append(('canon', n))
-            return err(Str('<canonicalize failed>'))
+            return err(IoError('<canonicalize failed>'))
         depth = fs.rootdepth[fs.root_of[n]] + BitVecVal(fs.rel_depth[n], 32)
-        return ok(CanonStr(n, depth))
+        return ok(CanonPathV(n, depth))
 
     @reg(r'^(core::)?str::<impl str>::matches$')
     def str_matches(ctx, args, callee):
